@@ -10,9 +10,57 @@ from .interp import as_int_term, const_int
 def ext_attr(I, obj, attr, node):
     name = obj.t
     full = f"{name}.{attr}"
-    if name == 'source' and attr in ('read', 'recv', 'seek'):
-        return SV('func', BuiltinRef('source.' + attr, obj))
+    if name == 'source':
+        kind = obj.extra['source_kind']
+        if (kind == 'file' and attr in ('read', 'seek')) or (kind == 'socket' and attr == 'recv'):
+            return SV('func', BuiltinRef('source.' + attr, obj))
+        I.raise_('AttributeError', node)
     return SV('ext', full, extra=obj.extra)
+
+
+def source_read(I, slf, args, kwargs, node):
+    """E1: read(k) / recv(k)"""
+    USED.add('E1')
+    src = slf.extra
+    Tt, R = src['T'].t, src['R'].t
+    n = T.blen(Tt)
+    if not args or args[0].kind == 'none':
+        k = z3.IntVal(-1)
+    else:
+        k = as_int_term(args[0])
+    if I.path.decide(k < 0):
+        if src['source_kind'] == 'socket':
+            I.raise_('ValueError', node)
+        out = T.sl(Tt, R, n)
+        src['R'] = mk_int(n)
+        return mk_bytes(out)
+    if I.path.decide(k == 0):
+        return mk_bytes(T.bempty)
+    if I.path.decide(R >= n):
+        return mk_bytes(T.bempty)          # end of file / peer closed
+    m = z3.Int(I.path.fresh_name('m'))
+    I.path.assume(z3.And(m >= 1, m <= k, m <= n - R))   # ANY fragmentation: m is universally quantified
+    out = T.sl(Tt, R, R + m)
+    src['R'] = mk_int(R + m)
+    return mk_bytes(out)
+
+
+def source_seek(I, slf, args, kwargs, node):
+    USED.add('E1')
+    src = slf.extra
+    Tt = src['T'].t
+    off = as_int_term(args[0])
+    whence = args[1] if len(args) > 1 else mk_int(0)
+    if whence.kind == 'ext' and whence.t == 'io.SEEK_END':
+        new = T.blen(Tt) + off
+    elif whence.kind == 'int' and const_int(whence.t) == 0:
+        new = off
+    else:
+        raise OutOfSubset("seek whence")
+    if const_int(off) != 0:
+        raise OutOfSubset("seek with non-zero offset")
+    src['R'] = mk_int(new)
+    return mk_int(new)
 
 
 def ext_call(I, fsv, args, kwargs, node):
@@ -57,6 +105,17 @@ def model_open(I, call_node, frame):
 
 
 def havoc_ghost(I, g):
+    """g = '<param>.R': the read offset of a source parameter"""
+    name, fld = g.split('.')
+    for fr in I._frames_for_ghost:
+        v = fr.lookup(name)
+        if v is not None and v.kind == 'ext' and v.t == 'source':
+            R = z3.Int(I.path.fresh_name(name + '.R'))
+            I.path.assume(z3.And(R >= 0, R <= T.blen(v.extra['T'].t)))
+            v.extra['R'] = mk_int(R)
+            return
+        if v is not None:
+            return          # not a reader source (e.g. the bytes variant): nothing to havoc
     raise OutOfSubset(f"ghost {g}")
 
 
